@@ -9,6 +9,7 @@ HARNESS = {
     'clocklab': dict(srcs=['harness/corelab/clocklab.c'] + COMMON),
     'lincheck': dict(srcs=['harness/sched/lincheck.c', 'harness/sched/sched.c'] + COMMON),
     'refcount': dict(srcs=['harness/sched/refcount.c', 'harness/sched/sched.c', 'harness/common/cumem.c'] + COMMON),
+    'wakeup': dict(srcs=['harness/sched/wakeup.c', 'harness/sched/sched.c', 'harness/common/mockloop.c'] + COMMON),
     'picsound': dict(srcs=['harness/corelab/picsound.c', 'harness/common/cumem.c'] + COMMON),
 }
 
@@ -273,5 +274,38 @@ PROPS['C09'] = dict(
              quick=30000, thorough=600000),
         dict(name='refcount-tsan', bin='refcount', variant='tsan', mode='free',
              quick=3000, thorough=100000, workers=4, tsan=True),
+    ],
+)
+
+PROPS['C08'] = dict(
+    engine='sched',
+    technique='runtime monitoring: producers / consumers / dealer contenders '
+              'as logical threads of a seeded serialising scheduler, each '
+              'with a mock event loop sleeping on the REAL event descriptors '
+              '(readiness by poll); deadlock (= lost wake-up) decided on '
+              'logical state, occupancy and critical-section counters '
+              'asserted at every step',
+    level_text='Sampled exploration of sequentially consistent interleavings '
+               '(atomic-operation and eventfd read/write granularity) of 1-3 '
+               'producers and a consumer on queues of length 1-3, and of 2-3 '
+               'contenders x 1-3 rounds on a dealer. Liveness is decided as '
+               'bounded progress: every explored schedule must terminate '
+               'with all elements transferred / all rounds granted.',
+    level_note=SAN_NOTE + 'Threads follow the protocol of upipe_qsink / '
+               'upipe_qsrc (push directly, on failure watch event_push; pop '
+               'from the event_pop watcher). One consumer per queue, as in '
+               'every use inside Upipe.',
+    rule='case = one program + one seeded schedule; non-trivial = more '
+         'context switches than threads; distinct = hash of (program, '
+         'decision string)',
+    assumptions=['a single consumer per queue (the only use in Upipe); '
+                 'multi-consumer runs are exploratory only'],
+    jobs=[
+        dict(name='wakeup', bin='wakeup', variant='plain', quick=150000,
+             thorough=8000000,
+             require=['queue.programs_with_sleep', 'dealer.programs_with_sleep',
+                      'preempt_at.eventfd_read', 'preempt_at.eventfd_write']),
+        dict(name='wakeup-asan', bin='wakeup', variant='asan', quick=15000,
+             thorough=800000),
     ],
 )
